@@ -19,7 +19,8 @@ MANIFEST = dict(
          "That an operator's returned teardown reaches every upstream subscription is the regenerated SubscribeShape fact (C14.table_ok); that no operator emits while holding a lock its own teardown takes (so a teardown run from inside a delivery never waits for the emitting goroutine itself) is the regenerated EmitLocks fact (C03lock.no_self_deadlock). Tie: kinds ops/chains/cutin (teardown count of the source probe), "
          "teardown (probe with panicking teardowns below every operator and inside Merge/TakeUntil/CombineLatest set-ups, every subset), leak (goroutines created by the library must not survive the "
          "subscription, for every goroutine/timer-owning operator and each way of ending). Kernel half (races between Complete, Error, Unsubscribe and Add; Add after disposal): see the kernel part when present in this build."
-         ' Hot constructs: the release of the shared source after every event of the Share / connectable sequences (transition system and release theorems of RoProps/C11); kind=leak also subscribes the SAME observable value a second time (state kept per observable value instead of per subscription).',
+         ' Hot constructs: the release of the shared source after every event of the Share / connectable sequences (transition system and release theorems of RoProps/C11); kind=leak also subscribes the SAME observable value a second time (state kept per observable value instead of per subscription).'
+         ' Teardowns run outside the producer lock for the regenerated subscriber programs (C06lock, read by C06).',
     technique="Lean 4 proof (run invariants; induction over finalizer trees) + kernel-decided SubscribeShape table + differential correspondence (teardown counters, order of runs, raised value) + goroutine-leak oracle",
     ref='5/C03')
 
